@@ -324,7 +324,8 @@ class Path:
                     nob = len(self.obligations)
                     if nob != t.nobl:
                         raise MergeAbort()
-                except (SymRaise, _Return, _Break, _Continue, MergeAbort, PathInfeasible):
+                except (SymRaise, _Return, _Break, _Continue, MergeAbort, PathInfeasible, Unsupported):
+                    # (Unsupported: the speculated arm may be dead; the fork below decides feasibility first)
                     self._rollback(t)
                     raise MergeAbort()
                 finals = self._rollback(t)
